@@ -960,10 +960,11 @@ impl<'p, W, R, T> CompilationScope<'p, W, R, T> {
                             )?)
                             .ok_or(CompilationError::CallableBindingFailed)?;
                     }
-                    if !bind.is_trivial_except(func.generic_params.as_deref().unwrap_or(&[])) {
+                    let own = func.generic_params.as_deref().unwrap_or(&[]);
+                    if !bind.is_trivial_except(own) {
                         return Err(CompilationError::CallableBindingFailed);
                     }
-                    return Ok(func.rtype(&bind));
+                    return Ok(func.rtype(&bind.restricted_to(own)));
                 }
                 Err(CompilationError::NotAFunction { type_: func_type })
             }
